@@ -125,6 +125,10 @@ struct Item {
     std::vector<int> vp;     // method: parameter classes; def: its classes
     int code = 0;            // def: what it returns
     bool has_next = false;
+    // method: the definition catalog as the real list enumerates it
+    std::vector<const void*> (*specs)() = nullptr;
+    // def: where its definition_info lives once loaded
+    y2::detail::definition_info** info = nullptr;
 };
 
 template<class T>
@@ -316,6 +320,16 @@ struct Lab {
             M::fn.~M();
             std::memset((void*)&M::fn, 0, sizeof(M::fn));
         };
+        it.specs = [] {
+            std::vector<const void*> v;
+            if (!M::fn.specs.empty())
+                for (auto& d : M::fn.specs) {
+                    v.push_back(&d);
+                    if (v.size() > 64)
+                        break;
+                }
+            return v;
+        };
         return it;
     }
 
@@ -361,6 +375,7 @@ struct Lab {
         it.has_next = has_next;
         it.load = &DefSlot<M, Adder>::load;
         it.unload = &DefSlot<M, Adder>::unload;
+        it.info = &DefSlot<M, Adder>::info;
         return it;
     }
 
@@ -800,6 +815,20 @@ struct TwExec {
             fail("C18", "catalog-size", "class catalog size differs from the live registrations");
         if (P::methods.size() != reg.methods.size())
             fail("C18", "catalog-size", "method catalog size differs from the live registrations");
+        // each method's definition catalog: exactly the loaded definitions,
+        // once each, in registration order
+        for (int k : order) {
+            if (items[k].kind != RK_METHOD)
+                continue;
+            std::vector<const void*> want;
+            for (int d : order)
+                if (items[d].kind == RK_DEF && items[d].method == items[k].method)
+                    want.push_back(*items[d].info);
+            if (items[k].specs() != want)
+                fail("C18", "catalog-definitions",
+                     std::string("definition catalog of ") + items[k].name +
+                         " does not enumerate the live definitions in registration order");
+        }
         for (int mi : reg.methods) {
             auto& m = plan.recs[mi];
             auto& defs = reg.defs[mi];
